@@ -127,3 +127,12 @@ Fixpoint idx_filter (f : case -> bool) (i : N) (cs : list case) : list N :=
 
 Definition mismatches (cs : list case) : list N := idx_filter (fun c => negb (agrees c)) 0 cs.
 Definition violations (cs : list case) : list N := idx_filter (fun c => negb (holds c)) 0 cs.
+
+(* Stream "peek": a large mismatching blob is written through the memory write-through path while
+   a second goroutine polls the three getters under its name.  seen = something was readable under
+   the name during (or after) a write that must fail verification.  The model (entry added only
+   after verification) says nothing is ever readable; an observation with seen = true is spelled as
+   data whose digest (1000) is not the name (1): it disagrees with the model and violates C01_check. *)
+Definition peekcase (seen : bool) : case :=
+  mkcase true false true 1 20 4%Z [1] [(0, [], 1000)] [Tick 0]
+         [if seen then OB OOk [VD 0 0] else OB OOk [V0]].
